@@ -165,6 +165,10 @@ def run(ctx):
                                "the restart flag is cleared only when the updated count equals the width of the requested stencil, "
                                "and stays set on a jittered step otherwise", L.loc, derived=str([T.show(x, 80) for x in reach_s]),
                                required=reach)
+    # a step read from a table of differences, (t[1:] - t[:-1])[i-1], is the difference of the two elements (i >= 1 here)
+    _m = sp.Symbol("_m", integer=True, nonnegative=True)
+    curr_dt = T.resimplify(T.item_of_slice(
+        T.distribute_item(curr_dt), lambda k: bool(getattr(sp.expand(k.subs(lv, _m + 1)), "is_nonnegative", False))))
     ctx.equiv("R20.3", "integrate[step size]", curr_dt, op("item", time, lv) - op("item", time, lv - 1), L.loc,
               "the step is multiplied by the current time step time[i] - time[i-1]", interp=it)
     # R20.3 step shape
@@ -200,7 +204,7 @@ def stencil_definition_rules(ctx, p, align, order, n):
     else:
         base, pat, val, lv = r.args[:4]
         rng = r.args[4] if len(r.args) > 4 else None
-        ctx.expect(base == op("zeros", order) and pat == lv and _range_bounds(rng) == (sp.Integer(0), sp.expand(order)), R,
+        ctx.expect(base == op("zeros", order) and pat == lv and _range_set(rng) == (sp.Integer(0), sp.expand(order)), R,
                    "integration_stencil[one weight per node]", "`order` weights, weight k computed in iteration k, all k in 0..order-1",
                    f.loc(), derived=sp.Tuple(base, pat, rng))
         ev = T.find_ops(val, "evalpoly")
@@ -247,6 +251,8 @@ def stencil_definition_rules(ctx, p, align, order, n):
             # `for c in poly` walks the coefficients by position: element lv of poly, positions 0..len(poly)-1
             X = X.xreplace({op("elem", poly, lv): op("item", poly, lv)})
             rng = op("range", sp.Integer(0), op("len", poly))
+        if _range_bounds(rng) is not None and _range_bounds(rng)[0] == 0:
+            X = T.resimplify(T.arange_element(X, lambda k: k == lv))      # a table of exponents read at the loop position
         ok = sp.expand(X - op("item", poly, lv) * x**(deg - lv)) == 0 and _range_bounds(rng) == (sp.Integer(0), sp.expand(deg + 1))
     ctx.expect(ok, R, "evaluate_polynomial", "sum_k poly[k]*x^(deg-k) over all deg+1 coefficients (highest power first)", f.loc(), derived=r)
     ctx.absorb(it)
@@ -255,6 +261,10 @@ def stencil_definition_rules(ctx, p, align, order, n):
     it = Interp(p, opaque={TI + "lagrange_base_polynomial_coef": "lag"})
     r = T.to_term(it.call_function(f, [order, idx], {}, None))
     want_base = op("store", op("zeros", order + 1), op("slc", sp.Integer(0), order, T.NONE_T), op("lag", order - 1, idx))
+    if fname(r) == "store" and r.args[1] in (order, sp.Integer(-1)) and r.args[2] == 0 and fname(r.args[0]) == "store" \
+            and r.args[0].args[0] in (op("empty", order + 1), op("zeros", order + 1)):
+        # a fresh buffer whose last slot (the constant of integration) is set to zero explicitly is the zero-initialised one
+        r = op("store", op("zeros", order + 1), *r.args[0].args[1:])
     direct_ = fname(r) == "store" and r.args[0] == op("zeros", order + 1) and _slice0(r.args[1]) == op("slc", sp.Integer(0), order, T.NONE_T)
     if direct_:
         # built in one expression: poly[0:order] = lag / [order, order-1, .., 1]  (coefficient k divided by order - k, all k)
@@ -428,6 +438,14 @@ def _range_bounds(r):
     if fname(r) != "range" or len(r.args) not in (1, 2):
         return None
     return (sp.Integer(0), sp.expand(r.args[0])) if len(r.args) == 1 else (sp.expand(r.args[0]), sp.expand(r.args[1]))
+
+
+def _range_set(r):
+    """(lowest, highest + 1) of the indices a unit-step range visits, in either direction: for a fill whose iteration k writes only
+    slot k from values that no iteration changes, the order of the visits does not matter"""
+    if fname(r) == "range" and len(r.args) == 3 and r.args[2] == -1:
+        return (sp.expand(r.args[1] + 1), sp.expand(r.args[0] + 1))
+    return _range_bounds(r)
 
 
 def _slice0(t):
